@@ -230,6 +230,12 @@ def execute(trace, ctx):
             got = {tkey(t) for t in g}
             exp = model.get(k, set())
             ctx.check(got == exp, "C02.graphs-content", lambda: f"{where}: Graph yielded by graphs() for {k} has missing={_srt(exp - got)} extra={_srt(got - exp)}")
+        # 2b. graphs(triple): exactly the graphs that hold the triple (the default graph may or may not be reported)
+        for t in vt[: cfg["sweep_patterns"]]:
+            tk = tuple(skey(x) for x in t)
+            holders = {n for n, ts in model.items() if tk in ts}
+            gotg = {key(g.identifier) for g in ds.graphs((T(t[0]), T(t[1]), T(t[2])))}
+            ctx.check(holders - {DEF} <= gotg <= holders | {DEF}, "C02.graphs-of-triple", lambda: f"{where}: graphs({t}) -> {_srt(gotg)}, the triple is in {_srt(holders)}")
         # 3. stored views
         for vid, (v, k) in views.items():
             exp = model.get(k, set())
